@@ -134,10 +134,10 @@ def gen_direct_case(rng):
 
 # ------------------------------------------------------------------ SPEC: the documented procedure, dense, exact
 
-def normalize_threshold(M, eps, near):
+def normalize_threshold(M, eps, near, zero):
     sums = {}
     for (r, c), v in M.items():
-        sums[c] = sums.get(c, F(0)) + v
+        sums[c] = sums.get(c, zero) + v
     out = {}
     for (r, c), v in M.items():
         x = v / sums[c] if sums[c] > 0 else v
@@ -148,29 +148,31 @@ def normalize_threshold(M, eps, near):
     return out
 
 
-def em_spec(M0, occs, n, n_iter, eps):
+def em_spec(M0, occs, n, n_iter, eps, exact=True):
     """L1-normalise the columns, zero the entries below eps, then n_iter times: every occurrence distributes one unit
     of mass over the cells (own row, context column) of its window contexts in proportion to kernel weight x current
-    cell value; re-normalise, re-threshold.  Returns (matrix, near-threshold decisions met on the way)."""
+    cell value; re-normalise, re-threshold.  Returns (matrix, near-threshold decisions met on the way).
+    exact: fractions; otherwise the same dense procedure in float64 (exact rationals explode with 53-bit timed weights
+    or long corpora; float64 is 1e-15 against a 2e-5 comparison)."""
+    conv = (lambda x: x) if exact else float
+    zero = F(0) if exact else 0.0
+    eps = eps if exact else float(eps)
     near = []
-    M = dict(M0)
+    M = {k: conv(v) for k, v in M0.items()}
     if n_iter > 0 or eps > 0:
-        M = normalize_threshold(M, eps, near)
+        M = normalize_threshold(M, eps, near, zero)
+    flat_occs = []
+    for row, per_block in occs:
+        flat_occs.append([((row, ctx + i * n), conv(w)) for i, blk in enumerate(per_block) for ctx, w in blk.values() if w > 0])
     for _ in range(n_iter):
-        new = {k: F(0) for k in M}
-        for row, per_block in occs:
-            shares = []
-            for i, blk in enumerate(per_block):
-                for ctx, w in blk.values():
-                    if w > 0:
-                        cell = (row, ctx + i * n)
-                        if cell in M:
-                            shares.append((cell, w * M[cell]))
-            tot = sum((v for _, v in shares), F(0))
+        new = {k: zero for k in M}
+        for slots in flat_occs:
+            shares = [(cell, w * M[cell]) for cell, w in slots if cell in M]
+            tot = sum((v for _, v in shares), zero)
             if tot > 0:
                 for cell, v in shares:
                     new[cell] += v / tot
-        M = normalize_threshold(new, eps, near)
+        M = normalize_threshold(new, eps, near, zero)
     return M, near
 
 
@@ -243,7 +245,9 @@ def judge_fit(ctx, case, res, model_val, stats):
     M0 = {}
     for row, per_block in occs:
         c03.occ_contrib(M0, p["n"], row, per_block, bool(kw.get("normalize_windows", True)))
-    S, near = em_spec(M0, occs, p["n"], n_iter, eps)
+    exact = not (p["kind"] == "timed" and any(b["kind"] != "flat" for b in p["blocks"])) and (
+        n_iter <= 1 or sum(len(t) for t in c03.tokens_of(case)) <= 24)
+    S, near = em_spec(M0, occs, p["n"], n_iter, eps, exact)
     got = {(r, c): v for r, c, v in out["triples"]}
     # consequences stated by the property (no tolerance games: float32 slack only)
     bad = [k for k, v in got.items() if not (-1e-6 <= v <= 1 + 1e-5)] if (n_iter > 0 or eps > 0) else []
@@ -283,6 +287,10 @@ def judge_fit(ctx, case, res, model_val, stats):
         return None
     stats["corr"] += 1
     Mm = {(r, c): F(num, den) for r, row in enumerate(model_val) for (c, (num, den)) in row}
+    if not exact:
+        if set(Mm) != set(S) or any(not close(float(Mm[k]), float(S[k]), 1e-9, 1e-12) for k in Mm):
+            return "model pipeline (Coq) and documented procedure (float64) differ: %s vs %s" % (str(Mm)[:200], str(S)[:200])
+        return None
     if Mm != S:
         keys = [k for k in sorted(set(Mm) | set(S)) if Mm.get(k) != S.get(k)]
         if all(close(float(Mm.get(k, 0)), float(S.get(k, 0)), 1e-9, 1e-12) for k in keys) and p["kind"] == "timed":
